@@ -82,6 +82,14 @@ def _trace(ctx, rep):
                         and all(isinstance(e, ast.Name) for e in a_.targets[0].elts):
                     fn_names.add(a_.targets[0].elts[0].id)
                     pat_names.add(a_.targets[0].elts[1].id)
+        from .common import alias_map, resolve_alias
+        amap = alias_map(ast.Module(body=loop.body, type_ignores=[]))
+        for nm_, ex_ in amap.items():
+            ex_ = resolve_alias(ex_, amap)
+            if ex_ in fn_names:
+                fn_names.add(nm_)
+            if ex_ in pat_names:
+                pat_names.add(nm_)
         for call in calls_in(loop, "apply_rule"):
             found = True
             args = [norm(a) for a in call.args]
